@@ -40,6 +40,8 @@ LEVEL_NOTE = ('theorems about my transcription of the save/load code (generic va
               'every run by file-level comparison; netCDF4, xarray, numpy text I/O are trusted libraries')
 
 FILL = 9.969209968386869e36
+# the property arrays FluidMixture.__init__ derives from user_data / the built-in data base
+DERIVED = ['M', 'Pc', 'Tc', 'Vc', 'Tb', 'Vb', 'omega', 'kh_0', 'neg_dH_solR', 'nu_bar', 'B', 'dE', 'K_salt']
 USER_KEYS = sc.USER_KEYS
 EXTRA_KEYS = sc.EXTRA_KEYS
 SCRATCH = '/root/scratch/c18'
@@ -78,7 +80,8 @@ def abs_dbm(d):
         for name, row in d.user_data.items():
             ud.append({'name': name, 'props': [fnum(row[k]) for k in USER_KEYS],
                        'extra': {k: (fnum(row[k]) if k in row else None) for k in EXTRA_KEYS}})
-        return {'sol': True, 'composition': list(d.composition), 'fp_type': int(d.fp_type), 'isair': bool(d.isair),
+        return {'sol': True, 'derived': {k: farr(getattr(d, k)) for k in DERIVED},
+                'composition': list(d.composition), 'fp_type': int(d.fp_type), 'isair': bool(d.isair),
                 'sigma': fnum(d.sigma_correction), 'calc_delta': int(d.calc_delta),
                 'delta_groups': farr(d.delta_groups), 'delta': farr(d.delta), 'user_data': ud}
     return {'sol': False, 'isfluid': bool(d.isfluid), 'iscompressible': bool(d.iscompressible), 'rho_p': fnum(d.rho_p),
@@ -461,6 +464,10 @@ def diff_dbm(a, b, tol_groups, path):
         # written, in the object's own array): the matrix is not a definition then
         if a['calc_delta'] <= 0 and b['calc_delta'] <= 0 and not same(a['delta'], b['delta']):
             out.append((path + 'delta', a['delta'].tolist(), b['delta'].tolist()))
+        if 'derived' in a and 'derived' in b:
+            for k in DERIVED:
+                if not same(a['derived'][k], b['derived'][k]):
+                    out.append((path + 'dbm.' + k, a['derived'][k].tolist(), b['derived'][k].tolist()))
         na, nb = [u['name'] for u in a['user_data']], [u['name'] for u in b['user_data']]
         if sorted(na) != sorted(nb):
             out.append((path + 'user_data.keys', na, nb))
@@ -1039,6 +1046,17 @@ def _run(ctx, lean_ok, tmp):
         if i < 2:
             ctx.sample({'particle list': {'class': spec['ptype'], 'kind': spec['kind'], 'composition': spec['composition'],
                                           'n': len(spec['particles'])}})
+    # ---- A'. plume particle lists that mix soluble particles with and without user chemical data, both
+    #          orders, with and without an inert particle in between (every run, both plume classes)
+    k = 100000
+    for ptype in (1, 2):
+        for with_first in (True, False):
+            for inert_between in (False, True):
+                spec = sc.mixed_user_data_list_spec(rng, ptype, with_first, inert_between, tail=(ptype == 2 and inert_between))
+                check_particle_list(ctx, job, tmp, k, spec)
+                ctx.count('list mixed user data: %s first%s' % ('with' if with_first else 'without', ', inert between' if inert_between else ''))
+                ctx.nontrivial.add(('list-mixed-ud', ptype, with_first, inert_between, tuple(spec['composition'])))
+                k += 1
     # ---- B. profile files -------------------------------------------------------------------------
     for i in range(ctx.n(3, 40)):
         ps = sc.profile_spec(rng, chems=rng.choice([(), ('oxygen',), ('methane', 'oxygen')]))
